@@ -109,3 +109,58 @@ Proof.
   - apply (node_from_path_finds_listed_gen false stored eq_refl R fuel root path n); [|assumption].
     intros id nodes Hr. destruct (W id nodes Hr) as [H1 H2]. split; [apply sorted_distinct; assumption | assumption].
 Qed.
+
+(* ---- the hypotheses hold for the trees backup builds *)
+Definition entry_name (e : bytes * option N * N) : bytes := fst (fst e).
+Definition entries_ok (entries : list (bytes * option N * N)) : Prop :=
+  Forall (fun e => bytes_ok (entry_name e)) entries /\
+  StronglySorted (fun a b => bytes_cmp (entry_name a) (entry_name b) = Lt) entries.
+
+Lemma raw_name_mk_node e : bytes_ok (entry_name e) -> raw_name (mk_node e) = entry_name e.
+Proof.
+  destruct e as [[raw sub] tag]. unfold entry_name, raw_name, mk_node. cbn [fst n_name].
+  apply node_name_roundtrip_lemma.
+Qed.
+
+Lemma backup_tree_wf entries : entries_ok entries ->
+  sorted_by_raw (backup_tree entries) /\ names_escaped (backup_tree entries).
+Proof.
+  intros [Hok HS]. split.
+  - unfold sorted_by_raw, backup_tree. induction HS as [|a l HS IH Hall]; cbn [map]; constructor.
+    + apply IH. inversion Hok; assumption.
+    + inversion Hok as [|? ? Ha Hl]; subst. rewrite Forall_forall in *. intros m Hm.
+      apply in_map_iff in Hm. destruct Hm as [b [<- Hb]]. unfold raw_lt.
+      rewrite !raw_name_mk_node by auto. apply Hall. assumption.
+  - intros n Hn. unfold backup_tree in Hn. apply in_map_iff in Hn. destruct Hn as [e [<- He]].
+    rewrite Forall_forall in Hok. exists (entry_name e). split; [apply Hok; assumption|].
+    destruct e as [[raw sub] tag]. reflexivity.
+Qed.
+
+(* the listing shows the source names: the last component of a listed path is the raw name the
+   node was made from *)
+Lemma listed_last_component : forall fuel R nodes prefix path n,
+  In (path, n) (ls_nodes fuel R nodes prefix) -> exists pre, path = pre ++ [raw_name n].
+Proof.
+  induction fuel as [|f IH]; intros R nodes prefix path n Hin; [contradiction|].
+  cbn [ls_nodes] in Hin. apply in_flat_map in Hin. destruct Hin as [m [Hm Hin]].
+  fold (raw_name m) in Hin. destruct Hin as [E|Hin].
+  - inversion E; subst. eexists. reflexivity.
+  - destruct (n_subtree m) as [id|]; [|contradiction]. destruct (R id) as [ns|]; [|contradiction].
+    eapply IH. eassumption.
+Qed.
+
+Lemma backup_names_listed_and_found : forall R fuel root entries e,
+  wf_repo_sorted R -> R root = Some (backup_tree entries) -> entries_ok entries -> In e entries ->
+  In ([entry_name e], mk_node e) (ls (S fuel) R root) /\
+  forall bsearch stored, negb (bsearch && stored) = true ->
+    node_from_path bsearch stored R root [entry_name e] = Some (mk_node e).
+Proof.
+  intros R fuel root entries e W Hr [Hok HS] He.
+  assert (Hin : In ([entry_name e], mk_node e) (ls (S fuel) R root)).
+  { unfold ls. rewrite Hr. cbn [ls_nodes]. apply in_flat_map. exists (mk_node e).
+    split; [unfold backup_tree; apply in_map; assumption|].
+    left. cbn [app]. fold (raw_name (mk_node e)). rewrite raw_name_mk_node; [reflexivity|].
+    rewrite Forall_forall in Hok. apply Hok. assumption. }
+  split; [exact Hin|]. intros bsearch stored Hc.
+  eapply node_from_path_finds_listed_gen2; eassumption.
+Qed.
